@@ -174,20 +174,40 @@ def run_alg(text, alg, dump=False):
 
 
 def num_slack(R):
-    return 1e3 * EPS * R.cond ** 2
+    # the same numerical allowance as in C01-C03 (1e-8 * condition number, relative): the envelope algorithm is about
+    # 1e4 times less accurate than the others in free networks (2e-9 relative in q_xx at cond 20), which is accuracy,
+    # not a wrong result
+    # gama-g3 neglects the deflections of the vertical in the partial derivatives (they tilt the local horizon by <= 2.5e-5
+    # rad in the generated networks): its design matrix differs from the exact one by that relative amount, the
+    # solution by cond times it
+    return max(1e3 * EPS * R.cond ** 2, 1e-8 * R.cond) + 2.0 * _DEFL[0] * R.cond
+
+
+_DEFL = [0.0]       # largest deflection of the vertical [rad] of the network being judged (set by _oracle)
 
 
 def x_noise(An, R):
     """rounding of the right-hand sides (2.6e-5 mm for 6.4e9 mm coordinates) propagated to the unknowns [mm]:
     |dx_i| <= sqrt(Q_ii) |W db|"""
     wmax = 1.0 / max(float(np.linalg.eigvalsh(An.Q)[0]), 1e-300)
-    return np.sqrt(np.maximum(np.diag(R.Q), 0.0)) * math.sqrt(R.m * wmax) * 2.6e-5
+    return np.sqrt(np.maximum(np.diag(R.Q), 0.0)) * math.sqrt(R.m * wmax) * rhs_rounding(An)
+
+
+def rhs_rounding(An):
+    """rounding of one right-hand side: 2.6e-5 mm for lengths; gama evaluates angles and zenith angles by acos, which is
+    good to 1.5e-8 rad = 0.01 cc near 0 and 200 gon only (the same 0.02 cc that the right-hand sides are compared with)"""
+    ang = any(An.net_obs_type(ci, oi) in gm.ANGULAR for (ci, oi, off) in An.act) if hasattr(An, "net_obs_type") else _ANG[0]
+    return 0.02 if ang else 2.6e-5
+
+
+_ANG = [False]
 
 
 def rtr_floor(An, R):
     """rounding of 6.4e9 mm coordinates (1e-6 mm) in every right-hand side, weighted"""
     w = 1.0 / max(float(np.linalg.eigvalsh(An.Q)[0]), 1e-300)
-    return 1e-12 + R.m * w * (5e-6 ** 2) + 2.0 * math.sqrt(max(R.rtr, 0.0) * R.m * w) * 5e-6
+    rr = 0.02 if _ANG[0] else 5e-6
+    return 1e-12 + R.m * w * (rr ** 2) + 2.0 * math.sqrt(max(R.rtr, 0.0) * R.m * w) * rr
 
 
 def noise_floors(net, R, An=None):
@@ -462,7 +482,9 @@ def check_truth(net, An, R, G, alg, stats, tsuf):
     if nonlinear:
         # second-order remainder of a single linearisation; heights change by delta^2/2R under a horizontal shift
         # and the vertical of a station is held at the given position: an angular error delta/R over the sight d
-        tol = 1e-6 + 20.0 * delta * delta / max(An.dmin or 1.0, 1.0) + 4.0 * delta * An.dmax_ang / 6.3e6 + sl * xs
+        # (+ gama evaluates angles by acos: 1.5e-8 rad near 0 and 200 gon, times the sight, times the conditioning)
+        tol = 1e-6 + 20.0 * delta * delta / max(An.dmin or 1.0, 1.0) + 4.0 * delta * An.dmax_ang / 6.3e6 + sl * xs \
+            + 3e-8 * An.dmax_ang * max(1.0, R.cond)
     else:
         tol = 1e-7 + sl * xs + delta * delta / 6.0e6
     adj = {}
@@ -667,9 +689,11 @@ def check_dump_structure(net, An, R, G, dump_text, stats):
         for d in range(dim):
             rn = tscale[o["t"]] if o["t"] in gm.ANGULAR and tscale[o["t"]] > 0 else max(tscale[o["t"]], 1.0)
             e = float(np.max(np.abs(Ag[r + d] - An.A[r + d]))) / rn
-            tol = 1e-8 if o["t"] in ("vector", "xyz") else 2e-6
+            tol = 1e-8 if o["t"] in ("vector", "xyz") else 2e-6 + 2.0 * _DEFL[0]
             stats.ratio("dump.design." + o["t"], e / tol)
-            if e > tol:
+            # (absolute floor: a row whose only free components have coefficients of 1e-4 is judged to 5e-9 [cc/mm], the
+            # accuracy of my numerically differentiated reference)
+            if e > tol and e * rn > 5e-9 + 100.0 * _DEFL[0]:
                 extra = "+dh" if any(o.get(kk) for kk in ("fdh", "tdh", "ldh", "rdh")) else ""
                 extra += "+defl" if any(net["pts"][q].get("defl") for q in gm.obs_points(o)) else ""
                 f.append("g3.design.%s%s: row %d (%s %s) of the dumped design matrix differs from the numerical Jacobian of the "
@@ -856,6 +880,8 @@ def oracle(case, stats):
 
 def _oracle(case, stats):
     net = case["net"]
+    _ANG[0] = any(o["t"] in gm.ANGULAR for cl in net["clusters"] for o in cl["obs"])
+    _DEFL[0] = max([abs(v) * 0.01 / 3600.0 * math.pi / 180.0 for p in net["pts"] if p.get("defl") for v in p["defl"]] or [0.0])
     pre = prepare(net, stats)
     if pre is None:
         return []
@@ -1011,8 +1037,52 @@ def sample(case):
     return {"mode": case["mode"], "kind": net["kind"], "lat": net["lat"], "shift": net["shift"], "xml": txt[:1500]}
 
 
+# ------------------------------------------------------------------ <azimuth> (known finding: cannot be read at all)
+
+@st.composite
+def azimuth_case(draw):
+    return {"lat": draw(st.integers(-80, 80)), "lon": draw(st.integers(-179, 179)), "az": draw(st.integers(0, 3999)) / 10.0,
+            "dist": draw(st.integers(50, 3000)), "dms": draw(st.booleans()), "stdev": draw(st.booleans())}
+
+
+def oracle_azimuth(c, stats):
+    """a station, a target determined by azimuth + distance + height difference: gama-g3 must read and adjust it"""
+    B, L = math.radians(c["lat"]), math.radians(c["lon"])
+    a, b = 6378137.0, 6356752.31425
+    e2 = 1 - (b / a) ** 2
+    Nn = a / math.sqrt(1 - e2 * math.sin(B) ** 2)
+    P = np.array([Nn * math.cos(B) * math.cos(L), Nn * math.cos(B) * math.sin(L), Nn * (1 - e2) * math.sin(B)])
+    north = np.array([-math.sin(B) * math.cos(L), -math.sin(B) * math.sin(L), math.cos(B)])
+    east = np.array([-math.sin(L), math.cos(L), 0.0])
+    az = c["az"] * math.pi / 200.0
+    Q = P + c["dist"] * (math.cos(az) * north + math.sin(az) * east)
+    if c["dms"]:
+        deg = c["az"] * 0.9
+        d = int(deg); m = int((deg - d) * 60); sec = (deg - d - m / 60.0) * 3600
+        val = "%d-%02d-%013.10f" % (d, m, sec)
+    else:
+        val = repr(c["az"])
+    sd = "<stdev>10</stdev>" if c["stdev"] else ""
+    cov = "" if c["stdev"] else "<cov-mat> <dim>1</dim> <band>0</band> <flt>100</flt> </cov-mat>"
+    text = ('<?xml version="1.0" ?>\n<gnu-gama-data xmlns="http://www.gnu.org/software/gama/gnu-gama-data">\n<g3-model>\n'
+            '<fixed> <n/> <e/> <u/> </fixed>\n<point> <id>P</id> <x>%r</x> <y>%r</y> <z>%r</z> </point>\n'
+            '<free> <n/> <e/> </free> <fixed> <u/> </fixed>\n<point> <id>Q</id> <x>%r</x> <y>%r</y> <z>%r</z> </point>\n'
+            '<obs> <azimuth> <from>P</from> <to>Q</to> <val>%s</val> %s </azimuth> %s </obs>\n'
+            '<obs> <distance> <from>P</from> <to>Q</to> <val>%r</val> </distance> <cov-mat> <dim>1</dim> <band>0</band> <flt>25</flt> </cov-mat> </obs>\n'
+            '</g3-model>\n</gnu-gama-data>\n') % (float(P[0]), float(P[1]), float(P[2]), float(Q[0]), float(Q[1]), float(Q[2]), val, sd, cov, float(np.linalg.norm(Q - P)))
+    r = g3read.gama_g3(text, "gso")
+    stats.label("azimuth.probe")
+    if r["crash"] is not None:
+        return ["g3.azimuth.crash: %s %s" % (r["crash"]["kind"], r["crash"]["frame"])]
+    if r["rc"] != 0 or r["out"] is None:
+        msg = ((r["stderr"] or "") + (r["stdout"] or ""))[-300:].replace("\n", " ")
+        return ["g3.azimuth.unreadable: a network with an <azimuth> observation is refused (exit %s): %s" % (r["rc"], msg)]
+    return []
+
+
 PARTS = [
-    Part("truth", strategy=case_truth, oracle=oracle, nontrivial=nontrivial, n={"quick": 420, "thorough": 4200}, sample=sample),
-    Part("noisy", strategy=case_noisy, oracle=oracle, nontrivial=nontrivial, n={"quick": 420, "thorough": 4200}, sample=sample),
-    Part("permute", strategy=case_perm, oracle=oracle, nontrivial=nontrivial, n={"quick": 420, "thorough": 4200}, sample=sample),
+    Part("truth", strategy=case_truth, oracle=oracle, nontrivial=nontrivial, n={"quick": 1000, "thorough": 8000}, sample=sample),
+    Part("noisy", strategy=case_noisy, oracle=oracle, nontrivial=nontrivial, n={"quick": 1000, "thorough": 8000}, sample=sample),
+    Part("permute", strategy=case_perm, oracle=oracle, nontrivial=nontrivial, n={"quick": 1000, "thorough": 8000}, sample=sample),
+    Part("azimuth", strategy=azimuth_case, oracle=oracle_azimuth, n={"quick": 40, "thorough": 200}),
 ]
